@@ -3,3 +3,37 @@
 include!("generated_quick.rs");
 #[cfg(feature = "thorough")]
 include!("generated_thorough.rs");
+
+/// Hand-written additions to the generated universe (definitions the reference model's
+/// descriptors do not express).
+pub mod extra {
+    use desert::{deserialize, serialize_to_byte_vec, BinaryCodec};
+
+    /// an enum with evolution steps *of its own* (not on a constructor)
+    #[derive(BinaryCodec, Debug, PartialEq, Clone)]
+    #[evolution(FieldAdded("x", 1u8))]
+    pub enum EnumLevelEvo {
+        A,
+        B(u8),
+        C { s: String },
+    }
+
+    /// (value, bytes the format prescribes, bytes the library wrote or its error, what the library
+    /// decodes from the prescribed bytes - `Ok(true)` when it is the value)
+    pub fn enum_level_evolution() -> Vec<(String, Vec<u8>, Result<Vec<u8>, String>, Result<bool, String>)> {
+        // V = 1 | size of chunk 0 (zig-zag) | chunk 1: empty | chunk 0 = index ++ constructor record
+        let cases: Vec<(EnumLevelEvo, Vec<u8>)> = vec![
+            (EnumLevelEvo::A, vec![1, 4, 0, 0, 0]),
+            (EnumLevelEvo::B(7), vec![1, 6, 0, 1, 0, 7]),
+            (EnumLevelEvo::C { s: "hi".into() }, vec![1, 10, 0, 2, 0, 4, b'h', b'i']),
+        ];
+        cases
+            .into_iter()
+            .map(|(v, want)| {
+                let got = serialize_to_byte_vec(&v).map_err(|e| format!("{e:?}"));
+                let back = deserialize::<EnumLevelEvo>(&want).map(|d| d == v).map_err(|e| format!("{e:?}"));
+                (format!("{v:?}"), want, got, back)
+            })
+            .collect()
+    }
+}
